@@ -48,7 +48,7 @@ CATALOG = {
             S("s-c10-structured", "c10_templates", {"structured": True, "quick": True}, {"structured": True, "quick": False}, shards=6)],
     "C11x": [],
     "C11": [S("s-c11-multi-config", "c10_multi_config", {}, shards=3),
-            S("s-c11-freeform", "c11_freeform", {"n": 16}, {"n": 22}),
+            S("s-c11-freeform", "c11_freeform", {"n": 16}, {"n": 20}),
             S("s-c11-names", "c11_names", {}, shards=2),
             S("s-c11-names-structured", "c11_names", {"structured": True}, shards=2),
             S("s-c11-strings", "c11_strings", {"n_body": 10}, {"n_body": 14})],
